@@ -46,6 +46,8 @@ Judge(e) ==
       src == [div |-> e.div, track |-> IF wide THEN rk.src ELSE Evs(e.src)] IN
   IF ~e.previntact
     THEN [ok |-> FALSE, info |-> [id |-> e.id, genbug |-> FALSE, why |-> "the result of the previous conversion changed when this file was converted"]]
+  ELSE IF ~e.again /\ e.pan = ""
+    THEN [ok |-> FALSE, info |-> [id |-> e.id, genbug |-> FALSE, why |-> "converting the same value a second time gives another result (the first is judged below the same way)"]]
   ELSE IF wide /\ ~WideSrcOk(e)
     THEN [ok |-> FALSE, info |-> [id |-> e.id, genbug |-> TRUE, why |-> "source outside the domain of the property"]]
   ELSE IF wide /\ ~WideOk(e)
